@@ -230,8 +230,13 @@ func (p *Path) crossCheck(extra *smt.Term) {
 	if atomic.AddInt64(&p.X.crossCtr, 1)%int64(every) != 0 {
 		return
 	}
+	// bounded cost: at most 400 samples per harness, and none any more once
+	// 25 samples could not be decided one-shot within the cap
+	if atomic.LoadInt64(&p.X.crossAgreed)+atomic.LoadInt64(&p.X.crossUndecided) >= 400 || atomic.LoadInt64(&p.X.crossUndecided) >= 25 {
+		return
+	}
 	asserts := append(append([]*smt.Term(nil), p.pcond...), extra)
-	r, _, _, _ := smt.OneShot("z3-new", asserts, nil, 5000)
+	r, _, _, _ := smt.OneShot("z3-new", asserts, nil, 2000)
 	switch r {
 	case smt.Unsat:
 		atomic.AddInt64(&p.X.crossAgreed, 1)
